@@ -174,6 +174,25 @@ CLAIMED["C13"] = dict(
         "override, python oracle. No axioms.",
    technique="Rocq invariant proof (hint accuracy + log provenance) of never-alias over all client histories with arbitrary collisions; refutation witnesses replayed on the code; differential correspondence",
    design="6/C13")
+CLAIMED["C02"] = dict(
+   text="Theorems (coq/props/C02.v): C02_restart -- from ANY state satisfying the refinement invariant, for EVERY subset of index files "
+        "removed between shutdown and start-up (tree dump, any set of per-chunk per-split hint files, merged hint), bucket.close followed by "
+        "bucket.open is not refused, re-establishes the invariant, and the reference map after it is a VIEW of the one before: every live key keeps "
+        "value, flags and version, a deleted key stays deleted (tombstone remembered or forgotten), an absent key stays absent. C02_history -- for "
+        "ALL configurations with check_vhash off, ALL collision-free key sets and ALL histories of any length mixing set / delete / incr / get / "
+        "meta-get / flush / hint dump with restarts at ANY positions (each with its own arbitrary subset of removed index files), every reply "
+        "equals the reference map's reply. Proof (about 2000 lines): update-log theory (the tree = last update per hash of the record log), an "
+        "invariant tying every prefix of a chunk's hint splits to the records below the split's recorded data size (so any surviving prefix of "
+        "hint files plus a rescan of the data tail reproduces the log), sortedness/sealing of hint buffers, tree dump = tree at shutdown, and a "
+        "fold over bucket.open's per-chunk steps. The model functions are the ones the correspondence check replays: 120 histories per quick run "
+        "with restarts at seeded positions and random subsets of *.idx.hash / *.idx.s / *.idx.m deleted, replies and directory contents compared, "
+        "plus forced schedules of shutdown racing the post-rotation flush (genuine defect F21 found there and repaired by a fix: commit) and a "
+        "python reference-map oracle with admissible-version sets.",
+   note="PARTIAL: check_vhash=on histories (tree-only version updates, which the property text excludes from version comparison), restarts after "
+        "GC (C03) and colliding keys (C13, refuted there) are covered by correspondence only; the model keeps the post-rotation flush "
+        "synchronous (its race with shutdown is exercised by the forced schedule). Trusted: Coq kernel, translator, harness, python oracle. No axioms.",
+   technique="Rocq proof that close+open with any subset of index files preserves the refinement invariant and all live entries, lifted to all histories with restarts; differential correspondence with file deletion",
+   design="6/C02")
 NOT_YET = {}
 props = [json.loads(l) for l in open(os.path.join(V, "properties.jsonl"))]
 checks = []
